@@ -1,7 +1,7 @@
 """Per-property and per-suite configuration of the orchestrator."""
 
 # .vo files Extract.v depends on (built before extraction)
-EXTRACT_DEPS = ['Codec/FilterCase.vo', 'Agent/ReasmRs.vo', 'Agent/Model.vo', 'Agent/Monitors.vo', 'Codec/WireMon.vo', 'Codec/EncodeMsg.vo', 'Proofs/ArcHeapProofs.vo', 'Codec/AttrValue.vo', 'Codec/WireFull.vo', 'Codec/Message.vo', 'Codec/Keys.vo', 'Codec/Ignored.vo', 'Agent/AbsGlue.vo']
+EXTRACT_DEPS = ['Codec/FilterCase.vo', 'Agent/ReasmRs.vo', 'Agent/Model.vo', 'Agent/Monitors.vo', 'Codec/WireMon.vo', 'Codec/EncodeMsg.vo', 'Proofs/ArcHeapProofs.vo', 'Codec/AttrValue.vo', 'Codec/WireFull.vo', 'Codec/Message.vo', 'Codec/Keys.vo', 'Codec/Ignored.vo', 'Agent/AbsGlue.vo', 'Agent/RttExact.vo']
 
 SUITES = {
     'attrval': dict(bin='attrval', nontrivial=r'^C [DE] '),
